@@ -9,7 +9,7 @@ from ..model import close, convert
 ID = "C12"
 LEVEL = "exploration"
 ENGINE = "E3"
-QUICK_RUNS = 10000
+QUICK_RUNS = 5000
 THOROUGH_RUNS = 2000000
 QUICK_WALL = 90
 THOROUGH_WALL = 900
@@ -32,9 +32,11 @@ GAPS = [1, 2, 3, 4, 6, 7, 2, 3, 31, 50]    # hours; some gaps are longer than a 
 FR = [Fraction(1, 2), Fraction(1, 4), Fraction(3, 4), Fraction(1, 3)]
 
 
-def partition(tape, pubs, t_end):
+def partition(tape, pubs, t_end, coarse=False):
     """strictly increasing request times from pubs[0] to t_end"""
     mode = tape.weighted([("random", 5), ("single", 1), ("fine", 2), ("on_pubs", 2), ("near_pubs", 1)])
+    if coarse and mode == "fine":
+        mode = "random"         # (long series: keep the number of requests in the hundreds)
     t0 = pubs[0]
     ts = [t0]
     if mode == "near_pubs":
@@ -66,7 +68,7 @@ def partition(tape, pubs, t_end):
 
 
 def generate(tape, tier="quick"):
-    n = tape.rng_int(3, 14)
+    n = tape.rng_int(3, 14) if not tape.chance(1, 120) else tape.rng_int(45, 90)      # now and then a long series
     pubs = [0]
     for _ in range(n):
         pubs.append(pubs[-1] + tape.choice(GAPS))
@@ -84,7 +86,7 @@ def generate(tape, tier="quick"):
         chain = [dict(a)]
         if tape.chance(1, 5):
             chain.insert(0, {"kind": "scale", "f": 2})
-        ts = partition(tape, pubs, t_end)
+        ts = partition(tape, pubs, t_end, coarse=n >= 45)
         parts.append(ts)
         cons.append({"chain": chain, "units": None})
     # same pre-scaling on both so that totals are comparable
@@ -99,10 +101,12 @@ def generate(tape, tier="quick"):
         cons[0]["units"] = cons[1]["units"] = cu
     # interleave: every pull after the first publication >= its time, delayed by 0..3 more publications
     pulls = []
+    # in a long series the producer may be far ahead of both consumers: dozens of publications wait in the adapters
+    lag = tape.rng_int(33, 44) if n >= 45 and tape.chance(2, 3) else 0
     for ci, ts in enumerate(parts):
         for t in ts:
             need = next(i for i, p in enumerate(pubs) if p >= t)
-            pulls.append((min(len(pubs) - 1, need + tape.weighted([(0, 5), (1, 2), (3, 1)])), Fraction(t), ci))
+            pulls.append((min(len(pubs) - 1, need + lag + tape.weighted([(0, 5), (1, 2), (3, 1)])), Fraction(t), ci))
     # keep per-consumer order: a later request must not be emitted before an earlier one
     events = []
     emitted = [0, 0]
